@@ -552,6 +552,15 @@ def relax(case):
     integ = RELAX_INTEGRATORS[case['integ']]
     start = initial_string(kind, S.a, n)
     fails = []
+    # another, unrelated path with default settings was built earlier and had its gradient step retuned in place (the
+    # gradientkwargs attribute hands out the dict the path uses): the settings of one path are not those of the next
+    try:
+        other = mep.create_path(initial_string(kind, S.a, n), S.V, integratorfxn=integ)
+        if isinstance(other.gradientkwargs, dict):
+            other.gradientkwargs['shift'] = 0.4 * S.a
+            chk.note('relax-after-another-path-was-retuned')
+    except TypeError:
+        pass
     try:
         path = mep.create_path(start, S.V, integratorfxn=integ)
     except TypeError as e:
@@ -599,6 +608,32 @@ def relax(case):
         # ... and in one call (the shortest strings only: same work again)
         both, out3 = quiet(path.relax, relaxsteps=cap, climbsteps=cap, **kw)
         finals.append(('one call', both, nsteps(out3), 2))
+        # ... and with tolerance=0: 'until the displacement drops below the tolerance or the maximum number of steps is
+        # reached' then means all steps.  With three times the steps the default tolerance needed, the string has to be
+        # much closer than that tolerance asks for: the error falls geometrically, (tol)^3 in 3 S steps up to a constant,
+        # down to the bias of the numerical gradient (shift 1e-5: ~1e-9); 1e-2 tol is asked for.
+        s3 = nsteps(out3)
+        if len(s3) == 2 and max(s3) < cap:
+            B = 3 * max(s3)
+            allsteps, outz = quiet(path.relax, relaxsteps=B, climbsteps=B, tolerance=0, **kw)
+            sz = nsteps(outz)
+            chk.note('relax-comparisons', 4)
+            chk.note('relax-steps-total', 2 * B)
+            tagz = tag0 + ' (tolerance=0, %d+%d steps)' % (B, B)
+            if sz != [B, B]:
+                fails.append(Fail(key='tolerance-zero-stops-early', msg='%s: steps performed %s' % (tagz, sz), observed=sz, expected=[B, B]))
+            elif np.shape(allsteps.coord) != start.shape:
+                fails.append(Fail(key='path-shape', msg='%s: relaxed path has shape %s' % (tagz, np.shape(allsteps.coord))))
+            else:
+                gz = np.linalg.norm(S.grad(allsteps.coord), axis=1)
+                Ez = S.V(allsteps.coord)
+                iz = int(np.argmax(Ez))
+                worst = max(float(gz[0]), float(gz[-1]), float(gz[iz]))
+                if not worst <= 1e-2 * tol:
+                    fails.append(Fail(key='tolerance-zero-not-tighter', msg='%s: |grad V| at the ends / highest image is %.3g, %.3g, %.3g; '
+                                      'expected below 1e-2 x default tolerance = %.3g' % (tagz, gz[0], gz[-1], gz[iz], 1e-2 * tol)))
+                elif not abs(float(Ez[iz]) - S.H) <= 1e-7 * S.H:
+                    fails.append(Fail(key='barrier', msg='%s: highest energy %.12g, true barrier %.12g' % (tagz, Ez[iz], S.H)))
 
     for mode, final, steps, nexpect in finals:
         tag = tag0 + ' (%s)' % mode
